@@ -50,7 +50,7 @@ Qed.
 
 (* ---- the known finding: two 1 Hz clocks; p0 waits for clock B in phase BEFORE (suspends first, id 0),
         p1 waits for clock A in phase BEFORE (id 1); at t = 1 both clocks rise and p1 is resumed first ---- *)
-Definition cfg_two_1hz : config := mk_config true (1, 1)%positive (1, 1)%positive [].
+Definition cfg_two_1hz : config := mk_config true (1, 1)%positive (1, 1)%positive [] [].
 Definition procs_cross : list script :=
   [ [SWaitClk CB BEFORE; SWrite PA 1]; [SWaitClk CA BEFORE; SWrite PA 2] ].
 
@@ -70,7 +70,7 @@ Lemma cross_clock_before_depends_on_tie :
 Proof. vm_compute. repeat split; reflexivity. Qed.
 
 (* ---- a non-trivial single-clock run used as "Example" for the universal theorems ---- *)
-Definition cfg_one : config := mk_config false (3, 2)%positive (1, 1)%positive [[SRead SRA; SWaitClk CA AFTER; SRead SRA]].
+Definition cfg_one : config := mk_config false (3, 2)%positive (1, 1)%positive [[SRead SRA; SWaitClk CA AFTER; SRead SRA]] [].
 Definition procs_demo : list script :=
   [ [SWrite PA 5; SWaitClk CA BEFORE; SRead SRA; SWrite PA 6; SWaitClk CA DURING; SRead SRA; SWrite PA 7;
      SWaitClk CA AFTER; SRead SRA; SWaitFor (1%N, 2%positive); SWaitStable; SRead SC];
@@ -94,3 +94,20 @@ Lemma cross_clock_before_witness :
     res_log (simulate cfg_two_1hz procs_cross false 2 [] 2000) = l1 ++ e :: l2 ++ e' :: l3 /\
     ev_wake e = Some (t, ph, mt, i) /\ ev_wake e' = Some (t', ph, mt, i') /\ (t == t')%Q /\ (i' < i)%N.
 Proof. exact (fifo_inverted_sound _ (proj1 cross_clock_before_inverted)). Qed.
+
+(* ---- clocks without clocked nodes: clock A 100 (registers), a register-less root clock of 100 and one of 75
+        (derived from clock A with multiplier 3/4); waits issued 1/4 and 2/3 of a period after a tick ---- *)
+Definition cfg_extra : config :=
+  mk_config false (100, 1)%positive (1, 1)%positive [] [XRoot (100, 1)%positive; XDerived CA (3, 4)%positive].
+Definition procs_extra : list script :=
+  [ [SWaitFor (1%N, 400%positive); SWaitX 0 BEFORE; SRead SRA; SWaitFor (2%N, 300%positive); SWaitX 0 AFTER; SWaitX 1 DURING; SWaitX 0 DURING];
+    [SWaitFor (1%N, 400%positive); SWaitClk CA BEFORE; SWrite PA 7; SWaitFor (2%N, 300%positive); SWaitClk CA AFTER; SRead SRA] ].
+Definition extra_wakes : list (nat * Q) :=
+  flat_map (fun e => match e with
+                     | LProc t _ _ _ pid (AWake (WkX _ _) _) | LProc t _ _ _ pid (AWake (WkClk _ _) _) => [(pid, t)]
+                     | _ => [] end)
+           (res_log (simulate cfg_extra procs_extra false (1 # 10)%Q [] 5000)).
+Lemma extra_wakes_value :
+  extra_wakes = [(0%nat, 1 # 100); (1%nat, 1 # 100); (0%nat, 1 # 50); (1%nat, 1 # 50); (0%nat, 2 # 75); (0%nat, 3 # 100)]%Q
+  /\ res_oof (simulate cfg_extra procs_extra false (1 # 10)%Q [] 5000) = false.
+Proof. vm_compute. split; reflexivity. Qed.
